@@ -108,6 +108,14 @@ Theorem C05_timeout_cuts : forall (c : cfg) s i, norepeat c ->
 Proof. exact timeout_cuts. Qed.
 Print Assumptions C05_timeout_cuts.
 
+(* The deadline is tested BEFORE the retry policy (the order of the arms of the worker's error switch): a step whose
+   attempt ends after the timeout is never handed back for a retry - whatever retries it has left - and its retry count
+   stays as it is.  For every configuration. *)
+Theorem C05_timeout_no_retry : forall (c : cfg) s i early s', timedout s = true ->
+  step c s (WAfter i early) = Some s' -> ph (nd s' i) <> PRetryWait /\ rc (nd s' i) = rc (nd s i).
+Proof. exact timeout_no_retry. Qed.
+Print Assumptions C05_timeout_no_retry.
+
 Theorem C05_timeout_handler_starts : forall (c : cfg) s h t0, pc s = LHandlers (h :: t0) false -> dry c = false ->
   exists s', step c s (HStart h) = Some s'.
 Proof. exact handler_starts_after_timeout. Qed.
